@@ -17,10 +17,12 @@ import (
 // ---------------------------------------------------------------------------
 
 type client struct {
-	w     *world
-	idx   int
-	name  string
-	minor uint32
+	// uncertain: see invalidateUnanswered.
+	uncertain bool
+	w         *world
+	idx       int
+	name      string
+	minor     uint32
 
 	longID []byte
 	boot   uint32 // boot counter used for the client verifier
@@ -589,6 +591,24 @@ func (req *request) cmpBytes(d *delivery) []byte {
 	return d.bytes
 }
 
+// invalidateUnanswered: the model of client c has just changed through a
+// reply that arrived late (an evaluated copy overtaken by a copy that was
+// refused). Requests that were built before, on the older belief, and have not
+// been answered yet must not be held against the server.
+func (w *world) invalidateUnanswered(c *client) {
+	// The late reply may also have removed state that requests built from now
+	// on still refer to through objects created earlier (lock state of a file
+	// whose CLOSE was applied late): from here on refusals of this client's
+	// requests are no longer held against the server. Rare (see the probe
+	// evaluated-copy-returned-after-session-was-destroyed).
+	c.uncertain = true
+	for _, r := range w.reqs {
+		if r.cl == c && r.canonical == nil {
+			r.valid = false
+		}
+	}
+}
+
 // compareDup checks the reply to a retransmission against the canonical one.
 func (w *world) compareDup(req *request, d *delivery) {
 	if !req.replay {
@@ -623,6 +643,7 @@ func (w *world) compareDup(req *request, d *delivery) {
 		req.canonical = d
 		w.apply(req, d)
 		req.epochAtCanonical = c.epoch
+		w.invalidateUnanswered(c)
 		return
 	case req.kind == kCreateSession && can.res.Status != nfsv4.NFS4_OK && !d.stale:
 		// CREATE_SESSION only caches successful replies (e.g. after
@@ -698,11 +719,23 @@ func isUncachedReplay(can, d *delivery) bool {
 // and the lease cannot have expired.
 func (w *world) validContext(req *request, d *delivery) bool {
 	c := req.cl
-	if !req.valid || req.clEpoch != c.epoch || d.clEpoch != c.epoch || d.clBusy || c.clientInflight > 0 {
+	if !req.valid || req.clEpoch != c.epoch || d.clEpoch != c.epoch || d.clBusy || c.clientInflight > 0 || c.uncertain {
 		return false
 	}
 	if !w.leaseCertain(c) {
 		return false
+	}
+	// A copy of an earlier request of this client is still being evaluated
+	// by the server although the copy that was answered first was refused at
+	// the session level (e.g. its session had just been destroyed): its
+	// effects are not in the client's model, so refusals prove nothing.
+	for _, r := range w.reqs {
+		if r.cl == c && r != req && r.inflight > 0 && r.canonical != nil {
+			if st, _ := statusAt(r.canonical.res, 0); st != nfsv4.NFS4_OK {
+				w.k.Probe("refusal-while-refused-request-still-in-flight")
+				return false
+			}
+		}
 	}
 	if req.o != nil && w.ownerMaybeGone(req.o) {
 		return false
